@@ -396,3 +396,26 @@ Proof.
   - intros H s Hs. apply (L1_within S D base base_sym rk Hrk). apply H. exact Hs.
 Qed.
 End DocLevel.
+
+Lemma base2_sym : forall S ex a b, base2 S ex a b = base2 S ex b a.
+Proof. intros. unfold base2. apply andb_comm. Qed.
+
+Lemma base_ok_mono : forall S a b, base_ok S false a b = true -> base_ok S true a b = true.
+Proof.
+  intros S a b H. unfold base_ok in *. apply andb_true_iff in H. destruct H as [_ H].
+  simpl. exact H.
+Qed.
+
+Lemma base2_mono : forall S a b, base2 S false a b = true -> base2 S true a b = true.
+Proof.
+  intros S a b H. unfold base2 in *. apply andb_true_iff in H. destruct H as [H1 H2].
+  rewrite (base_ok_mono S a b H1), (base_ok_mono S b a H2). reflexivity.
+Qed.
+
+Theorem overlap_decomposition : forall S D,
+  acyclic S D -> (L2_accepts S D <-> L1_accepts S D).
+Proof.
+  intros S D A. unfold L2_accepts, L1_accepts.
+  apply (decomposition_iff S D (base2 S) (base2_sym S) (base2_mono S) (doc_sets S D)); [|exact A].
+  intros g b E. right. exists g. exact E.
+Qed.
